@@ -73,8 +73,32 @@ def main():
                                            repro="Soil(%r, dz=%r), Crop(%r)" % (soil, dz, crop)))
         if len(samples) < 5 and deep:
             samples.append(dict(soil=soil, crop=crop, dz=dz, deepened=[float(x) for x in P.dz], zmax=zmax))
+    # ---- layer-wise initial water content in the presence of a (deep) water table: every layer starts at the property it asked for
+    from aquacrop import GroundWater
+    import itertools as _it
+    for soil2, vals in _it.product(["Paddy", "ac_TunisLocal"], _it.product(["WP", "FC", "SAT"], repeat=2)):
+        cases += 1
+        try:
+            s2 = Soil(soil2)
+            m = AquaCropModel("1982/05/01", "1982/05/20", w, s2, Crop("Tomato", planting_date="05/01"), InitialWaterContent("Prop", "Layer", [1, 2], list(vals)),
+                              groundwater=GroundWater(water_table="Y", dates=["1982/05/01"], values=[10.0]))
+            m._initialize()
+        except Exception as e:
+            exc.append("%s iwc=%s with water table: %s %s" % (soil2, vals, type(e).__name__, e)); continue
+        P = m._param_struct.Soil.Profile; th = np.asarray(m._init_cond.th, dtype=float)
+        nontriv += 1
+        for i in range(len(th)):
+            want = vals[int(P.Layer[i]) - 1]
+            ok = (abs(th[i] - P.th_wp[i]) < 1e-9) if want == "WP" else (abs(th[i] - P.th_s[i]) < 1e-9) if want == "SAT" else (P.th_fc[i] - 1e-3 <= th[i] <= P.th_s[i] + 1e-9)
+            if not ok:
+                sig = "iwc-with-water-table|layer-does-not-start-at-the-requested-property"
+                fails.setdefault(sig, dict(signature=sig, clause="the initial water content equals the requested property in each layer (field capacity = adjusted field capacity under a water table)",
+                                           detail="Soil(%r), InitialWaterContent('Prop','Layer',[1,2],%r), water table at 10 m: compartment %d (layer %d) asked for %s, th=%.4f (th_wp %.4f th_fc %.4f th_s %.4f)"
+                                                  % (soil2, list(vals), i, int(P.Layer[i]), want, th[i], P.th_wp[i], P.th_fc[i], P.th_s[i]),
+                                           repro="Soil(%r); InitialWaterContent('Prop','Layer',[1,2],%r); GroundWater('Y', dates=['1982/05/01'], values=[10.0])" % (soil2, list(vals))))
+                break
     json.dump(dict(property="C18", tier=a.tier, seed=a.seed,
-                   lattice="%d compartment lists (incl. every compartment >= 0.25 m, single compartment, 1 cm compartments, %d seeded random lists) x %d crops x %d soils; initialisation under a 30 s alarm" % (len(dzs), len(dzs) - 12, len(crops), len(soils)),
+                   lattice="2 two-layer soils x 9 layer-wise WP/FC/SAT specifications under a 10 m water table; %d compartment lists (incl. every compartment >= 0.25 m, single compartment, 1 cm compartments, %d seeded random lists) x %d crops x %d soils; initialisation under a 30 s alarm" % (len(dzs), len(dzs) - 12, len(crops), len(soils)),
                    cases=cases, distinct_nontrivial=nontriv, rule="a case is non-trivial when the profile was actually deepened for the crop",
                    failures=list(fails.values()), samples=samples, wall_s=round(time.time() - t0, 1), exceptions=exc[:8]), open(a.out, "w"), indent=1)
 
